@@ -32,7 +32,7 @@ pub const PROPS: &[PropSpec] = &[
         rule: "non-trivial: >=2 kinds of reducer-context callbacks ran for >=2 actions while another client thread was runnable" },
     PropSpec { id: "C08", families: &[("core", 10)], borrowed: &[], quick_runs: 240_000,
         rule: "non-trivial: a get_state() call overlapped a pipeline instance in time, or a read happened inside a callback" },
-    PropSpec { id: "C09", families: &[("sub", 10)], borrowed: &[("C14", "sub")], quick_runs: 240_000,
+    PropSpec { id: "C09", families: &[("sub", 19), ("long", 1)], borrowed: &[("C14", "sub"), ("C10", "sub"), ("C10", "long"), ("C14", "long")], quick_runs: 240_000,
         rule: "non-trivial: an unsubscribe() call overlapped a pipeline instance or a dispatch, or a subscriber was still registered at shutdown" },
     PropSpec { id: "C10", families: &[("sub", 10)], borrowed: &[], quick_runs: 240_000,
         rule: "non-trivial: a channeled subscriber received >=1 notification and its queue was full at least once or it was unsubscribed/stopped with items queued" },
@@ -52,7 +52,7 @@ pub const PROPS: &[PropSpec] = &[
         rule: "non-trivial: a builder call sequence in which some option was set more than once or an add_* followed a with_*" },
     PropSpec { id: "C18", families: &[("core", 3), ("bp", 3), ("mw", 2), ("eff", 2)], borrowed: &[], quick_runs: 240_000,
         rule: "non-trivial: the balance equations were evaluated after a clean stop with >=1 dropped, vetoed, rejected or effect-bearing action" },
-    PropSpec { id: "C19", families: &[("two", 10)], borrowed: &[("C01", "two"), ("C03", "two"), ("C04", "two"), ("C18", "two"), ("C08", "two"), ("C16", "two"), ("C09", "two"), ("C10", "two"), ("C05", "two"), ("C06", "two"), ("C11", "two")], quick_runs: 160_000,
+    PropSpec { id: "C19", families: &[("two", 39), ("fleet", 1)], borrowed: &[("C01", "two"), ("C03", "two"), ("C04", "two"), ("C18", "two"), ("C08", "two"), ("C16", "two"), ("C09", "two"), ("C10", "two"), ("C05", "two"), ("C06", "two"), ("C11", "two"), ("C01", "fleet"), ("C03", "fleet"), ("C04", "fleet"), ("C11", "fleet"), ("C18", "fleet")], quick_runs: 160_000,
         rule: "non-trivial: operations on the two stores overlapped in time and one store was stopped or dropped while the other still had work" },
 ];
 
